@@ -216,7 +216,8 @@ fn main() {
   }
   if args.len() >= 4 && args[1] == "probe" {
     std::panic::set_hook(Box::new(|_| {}));
-    let r = child::run_probe(args[2].parse().unwrap(), args[3].parse().unwrap());
+    let hold: u8 = args.get(4).and_then(|a| a.parse().ok()).unwrap_or(7);
+    let r = child::run_probe(args[2].parse().unwrap(), args[3].parse().unwrap(), hold);
     println!("RESULT {}", r);
     return;
   }
@@ -265,7 +266,7 @@ fn main() {
     let scn_name = case["scenario"].as_str().unwrap();
     if scn_name == "mutual-exclusion probe" {
       let exe = std::env::current_exe().unwrap();
-      let out = Command::new(exe).arg("probe").arg(case["call_kind"].to_string()).arg(case["depths"][0].to_string()).output().expect("probe child");
+      let out = Command::new(exe).arg("probe").arg(case["call_kind"].to_string()).arg(case["depths"][0].to_string()).arg(case.get("hold_point").and_then(|h| h.as_u64()).unwrap_or(7).to_string()).output().expect("probe child");
       let r: Value = String::from_utf8_lossy(&out.stdout).lines().find_map(|l| l.strip_prefix("RESULT ").map(|r| serde_json::from_str::<Value>(r).ok())).flatten().unwrap_or(json!({}));
       let bad = r["probe"] == json!("done") && (r["second_thread_completed_while_first_was_constructing"] == json!(true) || r["constructions"] != json!(1) || r["same_object"] != json!(true));
       eprintln!("REPLAY C20 probe: {}", r);
@@ -384,16 +385,17 @@ fn main() {
   let mut probes = vec![];
   {
     let probe_depths: Vec<u8> = if quick { vec![2, 17] } else { vec![0, 5, 11, 17, 23, 29] };
-    let items: Vec<(u8, u8)> = [0u8, 1, 2].iter().flat_map(|&k| probe_depths.iter().map(move |&d| (k, d.max(if k == 2 { 1 } else { 0 })))).collect();
-    let results = par_map(&items, |&(k, d)| {
+    // hold points: 7 = P_NEW_BEGIN, 8 = P_NEW_END, 4 = P_INIT_END (slot written, Once not completed)
+    let items: Vec<(u8, u8, u8)> = [0u8, 1, 2].iter().flat_map(|&k| probe_depths.iter().flat_map(move |&d| [7u8, 8, 4].into_iter().map(move |hp| (k, d.max(if k == 2 { 1 } else { 0 }), hp)))).collect();
+    let results = par_map(&items, |&(k, d, hp)| {
       let exe = std::env::current_exe().unwrap();
-      let out = Command::new(exe).arg("probe").arg(k.to_string()).arg(d.to_string()).output();
+      let out = Command::new(exe).arg("probe").arg(k.to_string()).arg(d.to_string()).arg(hp.to_string()).output();
       match out {
         Ok(o) => String::from_utf8_lossy(&o.stdout).lines().find_map(|l| l.strip_prefix("RESULT ").map(|r| serde_json::from_str::<Value>(r).ok())).flatten(),
         Err(_) => None,
       }
     });
-    for (&(k, d), r) in items.iter().zip(results.into_iter()) {
+    for (&(k, d, hp), r) in items.iter().zip(results.into_iter()) {
       let r = match r {
         Some(r) => r,
         None => { eprintln!("[c20sched] MACHINERY ERROR: probe child gave no result"); std::process::exit(2); }
@@ -405,12 +407,12 @@ fn main() {
         total.viol(Viol {
           api: "get_or_create".into(),
           kind: "no-mutual-exclusion".into(),
-          case: json!({"scenario": "mutual-exclusion probe", "call_kind": k, "depths": [d, d], "choices": []}),
-          expected: "while a thread is inside the constructor, a second thread calling get_or_create for the same depth waits; then one construction and the same object for both".into(),
+          case: json!({"scenario": "mutual-exclusion probe", "call_kind": k, "depths": [d, d], "hold_point": hp, "choices": []}),
+          expected: "while a thread is inside the constructor / the initialisation closure (held at hook point 7 = P_NEW_BEGIN, 8 = P_NEW_END or 4 = P_INIT_END), a second thread calling get_or_create for the same depth waits; then one construction and the same object for both".into(),
           actual: r.to_string(),
         });
       }
-      probes.push(json!({"call_kind": k, "depth": d, "result": r}));
+      probes.push(json!({"call_kind": k, "depth": d, "hold_point": hp, "result": r}));
     }
   }
   let mut extra = Map::new();
